@@ -20,6 +20,7 @@ def run(ctx):
     def add(name, defines, args, tl, note=''):
         S.append(dict(name=name, wrapper='w_tsm.cpp', defines=defines, entry='h_c09', args=args, time_limit=tl, note=note, expect_reach=(400, 401, 402, 403)))
     add('d1.h4.s2.t2', DT(1, 4, 2, 2, 1), [-2, -1, 1, -2, 0, 0], 200, 'all pairs of (2 sources, 2 targets) placements, block sizes 1..3, both modes, upper level forked')
+    add('d1.h4.s1.t3', DT(1, 4, 1, 3, 1), [-2, -1, 1, -1, 0, 0], 200, 'three targets: target groups that enter an upper group in the middle, with empty cells in between')
     add('d1.h3.s2.t1.faces', DT(1, 3, 2, 1, 0), [-3, -1, 1, -1, 0, 0], 120, 'half lattice incl. faces; a single target')
     add('export-rebuild.d2.h3.s1.t2', DT(2, 3, 1, 2, 1, NEXTRA=1, NRHS=2), [2, -1, 1, -1, 1, 0], 240, 'bulk export of both trees, rebuild of the pair, second execute (C17/C13 on target/source trees)')
     add('d2.h3.s2.t1', DT(2, 3, 2, 1, 1), [-2, -1, 1, -1, 0, 0], 240, '')
